@@ -1,7 +1,216 @@
 import A2Verif.Model.Hex
-/-! driver family `c09` (stub until the family is built) -/
-namespace A2Verif.Drv.C09
+import A2Verif.Model.C09Crc
+import A2Verif.Model.C09Imd
+import A2Verif.Model.C09Td0
+import A2Verif.Model.C09Dot2mg
+import A2Verif.Model.C09Woz
+/-!
+Driver family `c09`.  Requests (blank separated tokens, bytes as hex, empty = `-`):
 
-def handle (_toks : List String) : String := "bad-request"
+* `c09 crc32 <hex>`                      → decimal CRC-32 of the bytes (seed 0) | `panic`
+* `c09 crc16 <hex>`                      → decimal TD0 CRC-16 of the bytes (seed 0)
+* `c09 td0pack <shift> <hex>`            → hex of the sector record | `err`
+* `c09 td0unpack <shift> <hex>`          → hex of the sector content | `err`
+* `c09 imdcompress <shift> <n> <hex>`    → hex | `panic`      (`Track::compress` on a track buffer)
+* `c09 imdexpand <shift> <n> <hex>`      → hex | `panic`
+* `c09 imdrecompress <shift> <n> <hex>`  → hex of `compress (expand buf)` | `panic`  (what load + save makes of a stored track)
+* `c09 imdimg <hdr> <comment> <ntrk> {<mode> <cyl> <head> <nsec> <shift> <smap> <cmap> <hmap> <sec>*nsec}*`
+     with `<sec>` = `N` (code 0) | `U<code>:<byte>` (uniform sector) | `R<code>:<hex>`
+                                          → `<hex of toBytes> <rt>` where `<rt>` = `rt-ok` iff the model's
+                                            `fromBytes (toBytes x) = x` on this image | `panic`
+* `c09 td0img <hdr8> <comment|none> <ntrk> {<nsec> <cyl> <head> {<c> <h> <id> <shift> <flags> <crc> <datahex>}*nsec}*`
+     with `<comment>` = `<stamp6hex>:<texthex>`
+                                          → `<hex of toBytesNormal> <rt>`
+* `c09 mgfinal <hdr64> <commentlen> <creatorlen>` → hex of the header `to_bytes` writes | `bad-request`
+* `c09 wozchunks <hex>`                  → chunk walk of `get_next_chunk` from offset 12:
+                                            `<id>@<ptr>+<size>[!]` … (`!` = unknown id)
+-/
+namespace A2Verif.Drv.C09
+open A2Verif.Hex A2Verif.Model
+
+/-- tail recursive hex decoder (images are hundreds of kilobytes) -/
+def ofHexFast (s : String) : Option (List Nat) :=
+  if s == "-" then some [] else
+  let rec go (cs : List Char) (acc : List Nat) : Option (List Nat) :=
+    match cs with
+    | [] => some acc.reverse
+    | [_] => none
+    | a :: b :: rest =>
+      match hexVal a, hexVal b with
+      | some x, some y => go rest ((16 * x + y) :: acc)
+      | _, _ => none
+  go s.toList []
+
+def toHexFast (bs : List Nat) : String :=
+  if bs.isEmpty then "-" else
+  String.ofList (bs.foldr (fun b acc => hexDigit ((b / 16) % 16) :: hexDigit (b % 16) :: acc) [])
+
+def optHex : Option (List Nat) → String → String
+  | some bs, _ => toHexFast bs
+  | none, dflt => dflt
+
+/-- parse one IMD sector description -/
+def parseSec (shift : Nat) (tok : String) : Option (List Nat) :=
+  if tok == "N" then some [0] else
+  match tok.splitOn ":" with
+  | [k, v] =>
+    match k.toList with
+    | 'U' :: c =>
+      match (String.ofList c).toNat?, ofHexFast v with
+      | some code, some [b] => some (code :: List.replicate (C09Imd.secSize shift) b)
+      | _, _ => none
+    | 'R' :: c =>
+      match (String.ofList c).toNat?, ofHexFast v with
+      | some code, some bs => some (code :: bs)
+      | _, _ => none
+    | _ => none
+  | _ => none
+
+def parseSecs (shift : Nat) : Nat → List String → Option (List Nat × List String)
+  | 0, toks => some ([], toks)
+  | n + 1, toks =>
+    match toks with
+    | [] => none
+    | t :: rest =>
+      match parseSec shift t, parseSecs shift n rest with
+      | some s, some (b, r) => some (s ++ b, r)
+      | _, _ => none
+
+def parseImdTracks : Nat → List String → Option (List C09Imd.Track)
+  | 0, [] => some []
+  | 0, _ => none
+  | n + 1, mode :: cyl :: head :: nsec :: shift :: smap :: cmap :: hmap :: rest =>
+    match mode.toNat?, cyl.toNat?, head.toNat?, nsec.toNat?, shift.toNat?, ofHexFast smap, ofHexFast cmap, ofHexFast hmap with
+    | some m, some c, some h, some ns, some sh, some sm, some cm, some hm =>
+      match parseSecs sh ns rest with
+      | some (buf, rest') =>
+        match parseImdTracks n rest' with
+        | some ts => some ({ mode := m, cylinder := c, head := h, sectors := ns, shift := sh, sectorMap := sm,
+                             cylMap := cm, headMap := hm, buf := buf } :: ts)
+        | none => none
+      | none => none
+    | _, _, _, _, _, _, _, _ => none
+  | _, _ => none
+
+def imdImg (toks : List String) : String :=
+  match toks with
+  | hdr :: com :: ntrk :: rest =>
+    match ofHexFast hdr, ofHexFast com, ntrk.toNat? with
+    | some h, some c, some n =>
+      match parseImdTracks n rest with
+      | some ts =>
+        let x : C09Imd.Image := { header := h, comment := c, tracks := ts }
+        match C09Imd.toBytes x with
+        | some bs =>
+          let rt := match C09Imd.fromBytes bs with
+            | some (some y) => if y = x then "rt-ok" else "rt-differs"
+            | some none => "rt-err"
+            | none => "rt-panic"
+          toHexFast bs ++ " " ++ rt
+        | none => "panic"
+      | none => "bad-request"
+    | _, _, _ => "bad-request"
+  | _ => "bad-request"
+
+def parseTd0Secs : Nat → List String → Option (List C09Td0.Sector × List String)
+  | 0, toks => some ([], toks)
+  | n + 1, c :: h :: i :: sh :: fl :: crc :: dat :: rest =>
+    match c.toNat?, h.toNat?, i.toNat?, sh.toNat?, fl.toNat?, crc.toNat?, ofHexFast dat with
+    | some c, some h, some i, some sh, some fl, some crc, some d =>
+      match parseTd0Secs n rest with
+      | some (ss, r) => some ({ cyl := c, head := h, id := i, shift := sh, flags := fl, crc := crc, data := d } :: ss, r)
+      | none => none
+    | _, _, _, _, _, _, _ => none
+  | _, _ => none
+
+def parseTd0Tracks : Nat → List String → Option (List C09Td0.Track)
+  | 0, [] => some []
+  | 0, _ => none
+  | n + 1, nsec :: cyl :: head :: rest =>
+    match nsec.toNat?, cyl.toNat?, head.toNat? with
+    | some ns, some c, some h =>
+      match parseTd0Secs ns rest with
+      | some (ss, rest') =>
+        match parseTd0Tracks n rest' with
+        | some ts => some ({ nsec := ns, cyl := c, head := h, crc := C09Crc.crc16 0 [ns, c, h] % 256, sectors := ss } :: ts)
+        | none => none
+      | none => none
+    | _, _, _ => none
+  | _, _ => none
+
+def td0Img (toks : List String) : String :=
+  match toks with
+  | hdr :: com :: ntrk :: rest =>
+    let comment : Option (Option C09Td0.Comment) :=
+      if com == "none" then some none else
+      match com.splitOn ":" with
+      | [st, tx] =>
+        match ofHexFast st, ofHexFast tx with
+        | some s, some t =>
+          some (some { crc := C09Crc.crc16 0 (C09Crc.le16 (t.length % 65536) ++ s ++ t), len := t.length, stamp := s, text := t })
+        | _, _ => none
+      | _ => none
+    match ofHexFast hdr, comment, ntrk.toNat? with
+    | some h, some c, some n =>
+      match parseTd0Tracks n rest with
+      | some ts =>
+        let x : C09Td0.Image := { hdr := h, comment := c, tracks := ts }
+        let bs := C09Td0.toBytesNormal x
+        let rt := match C09Td0.fromBytesNormal bs with
+          | some y => if C09Td0.toBytesNormal y = bs then "rt-ok" else "rt-differs"
+          | none => "rt-err"
+        toHexFast bs ++ " " ++ rt
+      | none => "bad-request"
+    | _, _, _ => "bad-request"
+  | _ => "bad-request"
+
+def handle (toks : List String) : String :=
+  match toks with
+  | ["crc32", h] =>
+    match ofHexFast h with
+    | some bs => match C09Crc.crc32 0 bs with
+      | some c => toString c
+      | none => "panic"
+    | none => "bad-request"
+  | ["crc16", h] =>
+    match ofHexFast h with
+    | some bs => toString (C09Crc.crc16 0 bs)
+    | none => "bad-request"
+  | ["td0pack", sh, h] =>
+    match sh.toNat?, ofHexFast h with
+    | some s, some bs => optHex (C09Td0.pack s bs) "err"
+    | _, _ => "bad-request"
+  | ["td0unpack", sh, h] =>
+    match sh.toNat?, ofHexFast h with
+    | some s, some bs => optHex (C09Td0.unpack s bs) "err"
+    | _, _ => "bad-request"
+  | ["imdcompress", sh, n, h] =>
+    match sh.toNat?, n.toNat?, ofHexFast h with
+    | some s, some n, some bs => optHex (C09Imd.compressGo s n bs) "panic"
+    | _, _, _ => "bad-request"
+  | ["imdexpand", sh, n, h] =>
+    match sh.toNat?, n.toNat?, ofHexFast h with
+    | some s, some n, some bs => optHex (C09Imd.expandGo s n bs) "panic"
+    | _, _, _ => "bad-request"
+  | ["imdrecompress", sh, n, h] =>
+    match sh.toNat?, n.toNat?, ofHexFast h with
+    | some s, some n, some bs => optHex ((C09Imd.expandGo s n bs).bind (C09Imd.compressGo s n)) "panic"
+    | _, _, _ => "bad-request"
+  | "imdimg" :: rest => imdImg rest
+  | "td0img" :: rest => td0Img rest
+  | ["mgfinal", h, cl, rl] =>
+    match ofHexFast h, cl.toNat?, rl.toNat? with
+    | some bs, some c, some r =>
+      match C09Dot2mg.Header.fromBytes bs with
+      | some hd =>
+        let x : C09Dot2mg.Image := { header := hd, data := [], comment := List.replicate c 0, creator := List.replicate r 0 }
+        toHexFast x.finalize.toBytes
+      | none => "bad-request"
+    | _, _, _ => "bad-request"
+  | ["wozchunks", h] =>
+    match ofHexFast h with
+    | some bs => C09Woz.showWalk (C09Woz.walk bs)
+    | none => "bad-request"
+  | _ => "bad-request"
 
 end A2Verif.Drv.C09
